@@ -120,6 +120,9 @@ def evaluate(e, env):
     if k == 'un':
         v, ty, ex = evaluate(e[2], env)
         r, t = unop(e[1], v, ty)
+        if e[1] in TRANSCENDENTAL and env.get('nudge') and t == FLOAT and r == r and not math.isinf(r):
+            # sensitivity probe: move the result of the library function by ~2 ulp
+            r = f32(r * (1.0 + env['nudge'] * 2.5e-7))
         return r, t, ('approx' if e[1] in TRANSCENDENTAL or ex == 'approx' else 'exact')
     if k == 'bin':
         a, ta, ea = evaluate(e[2], env)
